@@ -15,6 +15,15 @@ package topic
 // every schedule (monitor argument) and no access races.
 //
 //@ ghost isnode map[ref]bool
+// Event log of a tree (used by the callers of a tree, e.g. the broker's
+// backend): tvtype[t] the dynamic type tag of the values the owner stores in
+// t (0: any), tlast[t][topic] the payload of the last value passed to Set,
+// nemptied[t][topic] the number of Empty calls, lastfirst the payload of the
+// last MatchFirst result.
+//@ ghost tvtype map[ref]int
+//@ ghost tlast map[ref]map[string]int
+//@ ghost nemptied map[ref]map[string]int
+//@ ghost lastfirst int
 //@ global topicEnd [value] len(topicEnd) == 1 && topicEnd[0] == 0
 //@ guarded_by Tree.mutex: Tree.root
 //@ writers Tree.separator: NewTree
@@ -97,7 +106,7 @@ package topic
 //@   ensures [wf] wf() && forall m *node {isnode[m]} :: old(isnode[m]) ==> isnode[m]
 //@   ensures [config] forall tr *Tree {tr.root} :: tr.root == old(tr.root) && tr.separator == old(tr.separator) && tr.wildcardOne == old(tr.wildcardOne) && tr.wildcardSome == old(tr.wildcardSome)
 //@   ensures [children-kept] forall n *node {n.children} :: old(isnode[n]) ==> n.children == old(n.children)
-//@   modifies heap, isnode
+//@   modifies any(node.values), any(node.children), anymap(map[string]*node), elemsof(iface), isnode
 //@   loop 1 invariant [range] 0 <= rangeindex + 1 && rangeindex + 1 <= len(node.values) && wf() && (forall m *node {isnode[m]} :: old(isnode[m]) ==> isnode[m]) && (forall tr *Tree {tr.root} :: tr.root == old(tr.root) && tr.separator == old(tr.separator) && tr.wildcardOne == old(tr.wildcardOne) && tr.wildcardSome == old(tr.wildcardSome)) && (forall n *node {n.children} :: old(isnode[n]) ==> n.children == old(n.children))
 //@ func (t *Tree) set(value interface{}, topic string, node *node)
 //@   requires [locked] held[t.mutex] == 2 && std(t)
@@ -105,7 +114,7 @@ package topic
 //@   ensures [wf] wf() && forall m *node {isnode[m]} :: old(isnode[m]) ==> isnode[m]
 //@   ensures [config] forall tr *Tree {tr.root} :: tr.root == old(tr.root) && tr.separator == old(tr.separator) && tr.wildcardOne == old(tr.wildcardOne) && tr.wildcardSome == old(tr.wildcardSome)
 //@   ensures [children-kept] forall n *node {n.children} :: old(isnode[n]) ==> n.children == old(n.children)
-//@   modifies heap, isnode
+//@   modifies any(node.values), any(node.children), anymap(map[string]*node), elemsof(iface), isnode
 //@ func (t *Tree) get(topic string, node *node) (r []interface{})
 //@   requires [locked] held[t.mutex] >= 1 && std(t)
 //@   requires [node] isnode[node] && wf()
@@ -117,14 +126,14 @@ package topic
 //@   ensures [wf] wf() && forall m *node {isnode[m]} :: old(isnode[m]) ==> isnode[m]
 //@   ensures [config] forall tr *Tree {tr.root} :: tr.root == old(tr.root) && tr.separator == old(tr.separator) && tr.wildcardOne == old(tr.wildcardOne) && tr.wildcardSome == old(tr.wildcardSome)
 //@   ensures [children-kept] forall n *node {n.children} :: old(isnode[n]) ==> n.children == old(n.children)
-//@   modifies heap
+//@   modifies any(node.values), any(node.children), anymap(map[string]*node), elemsof(iface)
 //@ func (t *Tree) clear(value interface{}, node *node) (empty bool)
 //@   requires [locked] held[t.mutex] == 2
 //@   requires [node] isnode[node] && wf()
 //@   ensures [wf] wf()
 //@   ensures [config] forall tr *Tree {tr.root} :: tr.root == old(tr.root) && tr.separator == old(tr.separator) && tr.wildcardOne == old(tr.wildcardOne) && tr.wildcardSome == old(tr.wildcardSome)
 //@   ensures [children-kept] forall n *node {n.children} :: old(isnode[n]) ==> n.children == old(n.children)
-//@   modifies heap
+//@   modifies any(node.values), any(node.children), anymap(map[string]*node), elemsof(iface)
 //@   loop 1 invariant [wf] wf() && isnode[node] && (forall tr *Tree {tr.root} :: tr.root == old(tr.root) && tr.separator == old(tr.separator) && tr.wildcardOne == old(tr.wildcardOne) && tr.wildcardSome == old(tr.wildcardSome)) && (forall n *node {n.children} :: old(isnode[n]) ==> n.children == old(n.children))
 //@ func (t *Tree) count(node *node) (n int)
 //@   requires [locked] held[t.mutex] >= 1
@@ -165,42 +174,55 @@ package topic
 //@   requires [wf] wf()
 //@   ensures [tree] t != nil && fresh(t) && tree_ok(t) && held[t.mutex] == 0 && t.separator == separator && t.wildcardOne == wildcardOne && t.wildcardSome == wildcardSome
 //@   modifies isnode
+//@ func NewStandardTree() (t *Tree)
+//@   requires [wf] wf()
+//@   ensures [tree] t != nil && fresh(t) && tree_ok(t) && std(t) && held[t.mutex] == 0 && tvtype[t] == 0
+//@   modifies isnode
 //@ func (t *Tree) Add(topic string, value interface{})
 //@   requires [unlocked] held[t.mutex] == 0
 //@   requires [tree] tree_ok(t) && std(t)
+//@   requires [typed] tvtype[t] == 0 || (dyn(value) == tvtype[t] && payload(value) != 0)
 //@   ensures [tree] tree_ok(t)
+//@   ensures [footprint-grows] forall m *node {isnode[m]} :: old(isnode[m]) ==> isnode[m]
 //@   ensures [released] held == old(held)
-//@   modifies heap, isnode, held
+//@   modifies any(node.values), any(node.children), anymap(map[string]*node), elemsof(iface), isnode, held
 //@ func (t *Tree) Set(topic string, value interface{})
 //@   requires [unlocked] held[t.mutex] == 0
 //@   requires [tree] tree_ok(t) && std(t)
+//@   requires [typed] tvtype[t] == 0 || (dyn(value) == tvtype[t] && payload(value) != 0)
 //@   ensures [tree] tree_ok(t)
+//@   ensures [footprint-grows] forall m *node {isnode[m]} :: old(isnode[m]) ==> isnode[m]
 //@   ensures [released] held == old(held)
-//@   modifies heap, isnode, held
+//@   ensures [logged] tlast == old(tlast)[t := old(tlast[t])[topic := payload(value)]]
+//@   ghostset tlast[t][topic] := payload(value)
+//@   modifies any(node.values), any(node.children), anymap(map[string]*node), elemsof(iface), isnode, held, tlast
 //@ func (t *Tree) Get(topic string) (r []interface{})
 //@   requires [unlocked] held[t.mutex] == 0
 //@   requires [tree] tree_ok(t) && std(t)
 //@   ensures [snapshot] snapshot(r)
 //@   ensures [released] held == old(held)
+//@   assumes [stored-values] forall i int {r[i]} :: 0 <= i && i < len(r) ==> r[i] != nil && (tvtype[t] == 0 || (dyn(r[i]) == tvtype[t] && payload(r[i]) != 0))
 //@   modifies held
 //@ func (t *Tree) Remove(topic string, value interface{})
 //@   requires [unlocked] held[t.mutex] == 0
 //@   requires [tree] tree_ok(t) && std(t)
 //@   ensures [tree] tree_ok(t)
 //@   ensures [released] held == old(held)
-//@   modifies heap, held
+//@   modifies any(node.values), any(node.children), anymap(map[string]*node), elemsof(iface), held
 //@ func (t *Tree) Empty(topic string)
 //@   requires [unlocked] held[t.mutex] == 0
 //@   requires [tree] tree_ok(t) && std(t)
 //@   ensures [tree] tree_ok(t)
 //@   ensures [released] held == old(held)
-//@   modifies heap, held
+//@   ensures [logged] nemptied == old(nemptied)[t := old(nemptied[t])[topic := old(nemptied[t][topic]) + 1]]
+//@   ghostset nemptied[t][topic] := nemptied[t][topic] + 1
+//@   modifies any(node.values), any(node.children), anymap(map[string]*node), elemsof(iface), held, nemptied
 //@ func (t *Tree) Clear(value interface{})
 //@   requires [unlocked] held[t.mutex] == 0
 //@   requires [tree] tree_ok(t)
 //@   ensures [tree] tree_ok(t)
 //@   ensures [released] held == old(held)
-//@   modifies heap, held
+//@   modifies any(node.values), any(node.children), anymap(map[string]*node), elemsof(iface), held
 //@ func (t *Tree) Reset()
 //@   requires [unlocked] held[t.mutex] == 0
 //@   requires [tree] wf()
@@ -219,14 +241,15 @@ package topic
 //@ func (t *Tree) Match(topic string) (r []interface{})
 //@   requires [unlocked] held[t.mutex] == 0
 //@   requires [tree] tree_ok(t) && std(t)
-//@   ensures [snapshot] snapshot(r)
+//@   ensures [snapshot] snapshot(r) && fresh(r)
 //@   ensures [distinct] forall i int, j int {r[i], r[j]} :: 0 <= i && i < j && j < len(r) ==> r[i] != r[j]
 //@   ensures [tree] tree_ok(t)
 //@   ensures [released] held == old(held)
-//@   modifies heap, held
+//@   assumes [stored-values] forall i int {r[i]} :: 0 <= i && i < len(r) ==> r[i] != nil && (tvtype[t] == 0 || (dyn(r[i]) == tvtype[t] && payload(r[i]) != 0))
+//@   modifies held
 //@ func (t *Tree) Match$1(values []interface{}) (cont bool)
 //@   requires [nonempty] len(values) > 0
-//@   preserves [own] snapshot(*list)
+//@   preserves [own] snapshot(*list) && (arr(*list) == 0 || arr(*list) > addr(list))
 //@   ensures [wf] old(wf()) ==> wf()
 //@   ensures [config] forall tr *Tree {tr.root} :: tr.root == old(tr.root) && tr.separator == old(tr.separator) && tr.wildcardOne == old(tr.wildcardOne) && tr.wildcardSome == old(tr.wildcardSome)
 //@   ensures [children-kept] forall n *node {n.children} :: old(isnode[n]) ==> n.children == old(n.children)
@@ -235,14 +258,15 @@ package topic
 //@ func (t *Tree) Search(topic string) (r []interface{})
 //@   requires [unlocked] held[t.mutex] == 0
 //@   requires [tree] tree_ok(t) && std(t)
-//@   ensures [snapshot] snapshot(r)
+//@   ensures [snapshot] snapshot(r) && fresh(r)
 //@   ensures [distinct] forall i int, j int {r[i], r[j]} :: 0 <= i && i < j && j < len(r) ==> r[i] != r[j]
 //@   ensures [tree] tree_ok(t)
 //@   ensures [released] held == old(held)
-//@   modifies heap, held
+//@   assumes [stored-values] forall i int {r[i]} :: 0 <= i && i < len(r) ==> r[i] != nil && (tvtype[t] == 0 || (dyn(r[i]) == tvtype[t] && payload(r[i]) != 0))
+//@   modifies held
 //@ func (t *Tree) Search$1(values []interface{}) (cont bool)
 //@   requires [nonempty] len(values) > 0
-//@   preserves [own] snapshot(*list)
+//@   preserves [own] snapshot(*list) && (arr(*list) == 0 || arr(*list) > addr(list))
 //@   ensures [wf] old(wf()) ==> wf()
 //@   ensures [config] forall tr *Tree {tr.root} :: tr.root == old(tr.root) && tr.separator == old(tr.separator) && tr.wildcardOne == old(tr.wildcardOne) && tr.wildcardSome == old(tr.wildcardSome)
 //@   ensures [children-kept] forall n *node {n.children} :: old(isnode[n]) ==> n.children == old(n.children)
@@ -253,7 +277,10 @@ package topic
 //@   requires [tree] tree_ok(t) && std(t)
 //@   ensures [tree] tree_ok(t)
 //@   ensures [released] held == old(held)
-//@   modifies heap, held
+//@   assumes [stored-value] v != nil ==> tvtype[t] == 0 || (dyn(v) == tvtype[t] && payload(v) != 0)
+//@   ensures [logged] lastfirst == payload(v)
+//@   ghostset lastfirst := payload(v)
+//@   modifies held, lastfirst
 //@ func (t *Tree) MatchFirst$1(values []interface{}) (cont bool)
 //@   requires [nonempty] len(values) > 0
 //@   ensures [wf] old(wf()) ==> wf()
@@ -266,7 +293,10 @@ package topic
 //@   requires [tree] tree_ok(t) && std(t)
 //@   ensures [tree] tree_ok(t)
 //@   ensures [released] held == old(held)
-//@   modifies heap, held
+//@   assumes [stored-value] v != nil ==> tvtype[t] == 0 || (dyn(v) == tvtype[t] && payload(v) != 0)
+//@   ensures [logged] lastfirst == payload(v)
+//@   ghostset lastfirst := payload(v)
+//@   modifies held, lastfirst
 //@ func (t *Tree) SearchFirst$1(values []interface{}) (cont bool)
 //@   requires [nonempty] len(values) > 0
 //@   ensures [wf] old(wf()) ==> wf()
@@ -280,4 +310,5 @@ package topic
 //@   ensures [snapshot] snapshot(r)
 //@   ensures [distinct] forall i int, j int {r[i], r[j]} :: 0 <= i && i < j && j < len(r) ==> r[i] != r[j]
 //@   ensures [released] held == old(held)
+//@   assumes [stored-values] forall i int {r[i]} :: 0 <= i && i < len(r) ==> r[i] != nil && (tvtype[t] == 0 || (dyn(r[i]) == tvtype[t] && payload(r[i]) != 0))
 //@   modifies held
